@@ -7,6 +7,7 @@ every crash state a fresh session probes reap (P1), reap(allow_incomplete)
 and - thorough tier - a second crash during the recovery itself (P4).
 """
 import os
+import re
 import sys
 import json
 import subprocess
@@ -528,6 +529,10 @@ def sigkill_conformance(task):
                 m += 1
                 if m == k:
                     break
+        # temporary file names are random per process: compare modulo them
+        tmp = re.compile(r"\.tmp-[0-9a-zA-Z_-]+$")
+        got = {tmp.sub(".tmp-X", k): v for k, v in got.items()}
+        snap = {tmp.sub(".tmp-X", k): v for k, v in snap.items()}
         if fsseam.snap_hash(got) != fsseam.snap_hash(snap):
             mismatch.append("%s/%s kill at op %d: real tree differs from the "
                             "materialised state" % (name, wl, k))
